@@ -35,7 +35,7 @@ ASSUMPTIONS = [
     'fresh-interpreter events run on the real clock, so they are only used with items that never expire',
 ]
 
-EVENTS = ['reopen', 'second_handle', 'pickle', 'thread', 'fork', 'process']
+EVENTS = ['reopen', 'second_handle', 'pickle', 'thread', 'fork', 'process', 'thread_close_in_txn']
 
 SETTINGS = {
     'statistics': [0, 1],
@@ -124,6 +124,8 @@ class EventRunner(Runner):
             self.check_settings(self.c, 'opening a second handle')
         elif ev == 'fork_in_txn':
             self.fork_in_txn()
+        elif ev == 'thread_close_in_txn':
+            self.thread_close_in_txn()
         elif ev == 'pickle':
             old = self.c
             self.c = pickle.loads(pickle.dumps(old))
@@ -169,6 +171,36 @@ class EventRunner(Runner):
         if ev == 'process':
             return self.step_in_process(op)
         raise HarnessError('unknown event %r' % ev)
+
+    def thread_close_in_txn(self):
+        """Another thread uses the shared object and closes ITS connection while this thread has a block open: handles are
+        per thread, so the block must be unaffected (both writes present afterwards)."""
+        if self.creation.get('sqlite_journal_mode') != 'wal' or self.disk_name != 'Disk':
+            return
+        box = {}
+
+        def other():
+            try:
+                box['len'] = len(self.c)
+                self.c.close()
+            except BaseException as exc:
+                box['exc'] = exc
+
+        try:
+            with self.c.transact(retry=True):
+                Runner.step(self, ('set', 'txn-key-1', ('s', 'one'), None, None))
+                t = threading.Thread(target=other)
+                t.start()
+                t.join()
+                Runner.step(self, ('set', 'txn-key-2', ('s', 'two'), None, None))
+        except Violation:
+            raise
+        except Exception as exc:
+            raise Violation('C18/close-in-other-thread/block-failed', 'a block failed with %r after another thread closed its own connection on the shared object' % (exc,))
+        if 'exc' in box:
+            raise Violation('C18/close-in-other-thread/raised', 'the other thread raised %r' % (box['exc'],))
+        Runner.step(self, ('get', 'txn-key-1', DFLT, False, False, False))
+        Runner.step(self, ('get', 'txn-key-2', DFLT, False, False, False))
 
     def fork_in_txn(self):
         """Fork while the parent has an open transaction.  NOT generated: on the unchanged tree the child's drop of the
@@ -358,7 +390,7 @@ class Events(SubCheck):
 
     def strategy(self, tier):
         steps = 40 if tier == 'quick' else 120
-        events = EVENTS if tier != 'quick' else ['reopen', 'fork', 'pickle', 'second_handle', 'thread'] * 3 + ['process']
+        events = EVENTS if tier != 'quick' else ['reopen', 'fork', 'pickle', 'second_handle', 'thread', 'thread_close_in_txn'] * 3 + ['process']
 
         @st.composite
         def case(draw):
